@@ -43,6 +43,12 @@ impl WriteXml for Commit {
                         .create_element("persist")
                         .write_text_content(BytesText::new(&token.to_string()))?;
                 }
+                // a follow-up confirmed commit names the commit it follows up on
+                if let Some(ref token) = self.persist_id {
+                    _ = writer
+                        .create_element("persist-id")
+                        .write_text_content(BytesText::new(&token.to_string()))?;
+                }
                 Ok(())
             })
             .map(|_| ())
